@@ -43,6 +43,12 @@ CHECKS = {
  "C16": ("CODEC(hook)", "property testing of the token bucket on a harness clock with black-box inferred constants; window-bound invariant + idle liveness", "exploration",
          "With burst and rate inferred black-box, every window of every generated arrival sequence stays within B + R*span and an idle bucket grants any request up to B.",
          "Decides the single bucket only; the two-bucket limiter, the reply pricing and the cookie exemption are private glue decided by the wire tier when enabled.", "3/C16"),
+ "C17": ("CONF+CODEC", "model-based property testing: generated interface configurations through the real loader and builder, decoded by an RFC 4861/8106/8781/8910 decoder and compared with expected(config)", "exploration",
+         "Every generated interface section (tri-state fields, boundary lifetimes in four spellings, prefixes of any length with host bits, RDNSS/DNSSL/PREF64/captive portal, top-level defaults) yields an RA that an independent RFC decoder reads back as exactly the configured values; reserved fields zero; unrepresentable values rejected or clamped, never wrapped.",
+         "Trusted: the harness's RFC decoder and expectation model; yaml-rust's emitter (cases whose emitted text does not re-parse to the intended tree are skipped and counted). mtu/lifetime tri-state resolution is decided on the wire tier only.", "3/C17"),
+ "C19": ("CONF", "complete enumeration of the single-substitution family over the reference documents + generated double substitutions and byte/token mutations through the real loader; serve-smoke of every accepted configuration; crash oracle", "exploration",
+         "The manual's examples and the shipped example load; no document of the enumerated family or of the generated mutations makes the loader panic or return an empty error; no accepted configuration makes DHCP handling, RA building or ACL decisions panic.",
+         "Documents asking for explicit pools above 2^17 addresses, nesting deeper than 64 or using YAML aliases are not executed (counted): resource exhaustion by eager enumeration is not judged. DNS serving with accepted route tables is decided on the wire tier.", "3/C19"),
 }
 
 NOT_YET = {
@@ -81,6 +87,7 @@ def main():
         },
         "engines": [
             {"name": "CODEC", "path": "harness/src/props_codec.rs", "serves_properties": ["C04", "C05", "C06", "C12", "C14", "C16"], "kind_free_text": "independent RFC codecs + proptest strategies for messages, frames, byte mutations; enumerated mutation families"},
+            {"name": "CONF", "path": "harness/src/conf.rs", "serves_properties": ["C17", "C19"], "kind_free_text": "YAML documents (reference docs, substitution family, generated ASTs) through the real loader; serve-smoke"},
             {"name": "HIST", "path": "harness/src/hist.rs", "serves_properties": ["C01", "C09", "C10", "C13", "C18", "C20"], "kind_free_text": "model-based DHCP history interpreter over the real handle_pkt + Pool (proptest)"},
         ],
         "checks": checks,
